@@ -24,6 +24,13 @@ ENC_UNIT = {"ascii": 1, "utf8": 1, "utf_8": 1, "u8": 1, "utf_16_le": 2, "utf_16_
 SCOPED = ("struct", "seq", "fseq", "bitstruct", "alignedstruct", "union", "lazystruct")
 
 
+def discards(spec):
+    """optional trailing flag of the repetition kinds: ["array", n, sub, style, True], ["grange", sub, True], ["runtil", pred, sub, True]"""
+    k = spec[0]
+    i = {"array": 4, "grange": 2, "runtil": 3}.get(k)
+    return i is not None and len(spec) > i and spec[i] is True
+
+
 def is_expr(x):
     return isinstance(x, list) and x and x[0] in ("this", "obj", "const", "bin", "un", "fn", "lam")
 
@@ -193,13 +200,15 @@ def realise(spec):
         return C.FocusedSeq(spec[1], *subs)
     if k == "array":
         style = spec[3] if len(spec) > 3 else "ctor"
+        if discards(spec):
+            return C.Array(param(spec[1]), R(spec[2]), discard=True)
         if style == "getitem":
             return R(spec[2])[param(spec[1])]
         return C.Array(param(spec[1]), R(spec[2]))
     if k == "grange":
-        return C.GreedyRange(R(spec[1]))
+        return C.GreedyRange(R(spec[1]), discard=True) if discards(spec) else C.GreedyRange(R(spec[1]))
     if k == "runtil":
-        return C.RepeatUntil(param(spec[1]), R(spec[2]))
+        return C.RepeatUntil(param(spec[1]), R(spec[2]), discard=True) if discards(spec) else C.RepeatUntil(param(spec[1]), R(spec[2]))
     if k == "parray":
         return C.PrefixedArray(R(spec[1]), R(spec[2]))
     if k == "select":
